@@ -560,6 +560,12 @@ class Circuit(Unitary, StateVectorMap, Collection[Operation]):
 
         perm = [int(q) for q in qudit_permutation]
 
+        # Qudit i moves to perm[i] and takes its radix with it
+        radix_list = list(self.radixes)
+        for i, q in enumerate(perm):
+            radix_list[q] = self.radixes[i]
+        self._radixes = tuple(radix_list)
+
         perm_point = lambda p: CircuitPoint(p.cycle, perm[p.qudit])
         perm_point_or_none = lambda p: perm_point(p) if p is not None else p
 
